@@ -37,43 +37,43 @@ type c19KVSetBody struct {
 }
 
 var c19BodyTypes = map[string]func() any{
-	"POST /kv/{key}":                                         func() any { return &c19KVSetBody{} },
-	"PUT /kv/{key}":                                          func() any { return &c19KVSetBody{} },
-	"POST /vector/indexes":                                   func() any { return &VectorCreateRequest{} },
-	"POST /vector/actions/create":                            func() any { return &VectorCreateRequest{} },
-	"POST /vector/actions/add":                               func() any { return &VectorAddRequest{} },
-	"POST /vector/actions/add-batch":                         func() any { return &BatchAddVectorsRequest{} },
-	"POST /vector/actions/import":                            func() any { return &BatchAddVectorsRequest{} },
-	"POST /vector/actions/import/commit":                     func() any { return &VectorImportCommitRequest{} },
-	"POST /vector/actions/search":                            func() any { return &VectorSearchRequest{} },
-	"POST /vector/actions/search-with-scores":                func() any { return &VectorSearchWithScoresRequest{} },
-	"POST /vector/actions/delete_vector":                     func() any { return &VectorDeleteRequest{} },
-	"POST /vector/actions/compress":                          func() any { return &VectorCompressRequest{} },
-	"POST /vector/actions/get-vectors":                       func() any { return &BatchGetVectorsRequest{} },
-	"POST /vector/actions/reinforce":                         func() any { return &VectorReinforceRequest{} },
-	"POST /vector/actions/belief-assessment":                 func() any { return &BeliefAssessmentRequest{} },
-	"POST /vector/actions/evolve":                            func() any { return &VectorEvolveRequest{} },
-	"POST /vector/actions/get-evolution":                     func() any { return &GetMemoryEvolutionRequest{} },
-	"POST /graph/actions/link":                               func() any { return &GraphLinkRequest{} },
-	"POST /graph/actions/unlink":                             func() any { return &GraphUnlinkRequest{} },
-	"POST /graph/actions/get-links":                          func() any { return &GraphGetLinksRequest{} },
-	"POST /graph/actions/get-connections":                    func() any { return &GraphGetConnectionsRequest{} },
-	"POST /graph/actions/traverse":                           func() any { return &GraphTraverseRequest{} },
-	"POST /graph/actions/get-incoming":                       func() any { return &GraphGetIncomingRequest{} },
-	"POST /graph/actions/extract-subgraph":                   func() any { return &GraphExtractSubgraphRequest{} },
-	"POST /graph/actions/set-node-properties":                func() any { return &GraphSetPropertiesRequest{} },
-	"POST /graph/actions/get-node-properties":                func() any { return &GraphGetPropertiesRequest{} },
-	"POST /graph/actions/search-nodes":                       func() any { return &GraphSearchNodesRequest{} },
-	"POST /graph/actions/get-edges":                          func() any { return &GraphGetEdgesRequest{} },
-	"POST /graph/actions/find-path":                          func() any { return &GraphFindPathRequest{} },
-	"POST /graph/actions/get-all-relations":                  func() any { return &GraphGetAllRelationsRequest{} },
-	"POST /graph/actions/get-all-incoming":                   func() any { return &GraphGetAllRelationsRequest{} },
-	"POST /graph/actions/invalidate":                         func() any { return &GraphInvalidateRequest{} },
-	"POST /vector/indexes/{name}/config":                     func() any { return &hnsw.AutoMaintenanceConfig{} },
-	"POST /vector/indexes/{name}/maintenance":                func() any { return &TriggerMaintenanceRequest{} },
-	"PUT /vector/indexes/{name}/auto-links":                  func() any { return &UpdateAutoLinksRequest{} },
-	"POST /vector/indexes/{name}/reflections/{id}/resolve":   func() any { return &ResolveReflectionRequest{} },
-	"POST /ui/explore":                                       func() any { return &UIExploreRequest{} },
+	"POST /kv/{key}":                                       func() any { return &c19KVSetBody{} },
+	"PUT /kv/{key}":                                        func() any { return &c19KVSetBody{} },
+	"POST /vector/indexes":                                 func() any { return &VectorCreateRequest{} },
+	"POST /vector/actions/create":                          func() any { return &VectorCreateRequest{} },
+	"POST /vector/actions/add":                             func() any { return &VectorAddRequest{} },
+	"POST /vector/actions/add-batch":                       func() any { return &BatchAddVectorsRequest{} },
+	"POST /vector/actions/import":                          func() any { return &BatchAddVectorsRequest{} },
+	"POST /vector/actions/import/commit":                   func() any { return &VectorImportCommitRequest{} },
+	"POST /vector/actions/search":                          func() any { return &VectorSearchRequest{} },
+	"POST /vector/actions/search-with-scores":              func() any { return &VectorSearchWithScoresRequest{} },
+	"POST /vector/actions/delete_vector":                   func() any { return &VectorDeleteRequest{} },
+	"POST /vector/actions/compress":                        func() any { return &VectorCompressRequest{} },
+	"POST /vector/actions/get-vectors":                     func() any { return &BatchGetVectorsRequest{} },
+	"POST /vector/actions/reinforce":                       func() any { return &VectorReinforceRequest{} },
+	"POST /vector/actions/belief-assessment":               func() any { return &BeliefAssessmentRequest{} },
+	"POST /vector/actions/evolve":                          func() any { return &VectorEvolveRequest{} },
+	"POST /vector/actions/get-evolution":                   func() any { return &GetMemoryEvolutionRequest{} },
+	"POST /graph/actions/link":                             func() any { return &GraphLinkRequest{} },
+	"POST /graph/actions/unlink":                           func() any { return &GraphUnlinkRequest{} },
+	"POST /graph/actions/get-links":                        func() any { return &GraphGetLinksRequest{} },
+	"POST /graph/actions/get-connections":                  func() any { return &GraphGetConnectionsRequest{} },
+	"POST /graph/actions/traverse":                         func() any { return &GraphTraverseRequest{} },
+	"POST /graph/actions/get-incoming":                     func() any { return &GraphGetIncomingRequest{} },
+	"POST /graph/actions/extract-subgraph":                 func() any { return &GraphExtractSubgraphRequest{} },
+	"POST /graph/actions/set-node-properties":              func() any { return &GraphSetPropertiesRequest{} },
+	"POST /graph/actions/get-node-properties":              func() any { return &GraphGetPropertiesRequest{} },
+	"POST /graph/actions/search-nodes":                     func() any { return &GraphSearchNodesRequest{} },
+	"POST /graph/actions/get-edges":                        func() any { return &GraphGetEdgesRequest{} },
+	"POST /graph/actions/find-path":                        func() any { return &GraphFindPathRequest{} },
+	"POST /graph/actions/get-all-relations":                func() any { return &GraphGetAllRelationsRequest{} },
+	"POST /graph/actions/get-all-incoming":                 func() any { return &GraphGetAllRelationsRequest{} },
+	"POST /graph/actions/invalidate":                       func() any { return &GraphInvalidateRequest{} },
+	"POST /vector/indexes/{name}/config":                   func() any { return &hnsw.AutoMaintenanceConfig{} },
+	"POST /vector/indexes/{name}/maintenance":              func() any { return &TriggerMaintenanceRequest{} },
+	"PUT /vector/indexes/{name}/auto-links":                func() any { return &UpdateAutoLinksRequest{} },
+	"POST /vector/indexes/{name}/reflections/{id}/resolve": func() any { return &ResolveReflectionRequest{} },
+	"POST /ui/explore":                                     func() any { return &UIExploreRequest{} },
 }
 
 // patterns whose answers are not JSON documents
